@@ -670,6 +670,10 @@ def _check_pp(R, RA, g, gs, b, f, pp, pdesc, unit, role, depth, pnames):
                 wrong.append("compared with a %s dimension: %s" % ("/".join(sorted(dims)), show(("bin", op, lo, ro), pnames)))
                 continue
             so = strip(other)
+            if so[0] == "bin" and re.match(r"^(Add|Mul)", so[1]) and dims:
+                # `i <= dim + k` / `i <= dim * k` bounds nothing by the dimension
+                wrong.append("compared with more than the dimension: %s" % show(("bin", op, lo, ro), pnames))
+                continue
             # `i <= dim - k` with k >= 1 is as good as strict
             strict_ok = opn == "Lt" or role == "endpoint" or (so[0] == "bin" and so[1].startswith("Sub"))
             # the parameter side may be `p + extent`: still an upper bound for p
